@@ -8,7 +8,7 @@ snapshot(loaded) == N(snapshot(live at save time)), path by path.
 I/O faults cannot change whether this property holds; the deciding half of the
 technique here is seeded histories + restart + reference snapshot.
 """
-from .. import builder, env, seeds, simio, snapshot, noise  # noqa: F401
+from .. import builder, env, seeds, simio, snapshot, noise, trash  # noqa: F401
 from ..runner import Acc
 from ..simio import Ctx, HarnessTimeout, active
 
@@ -78,8 +78,11 @@ def owner_type(snap, path):
     return "Project"
 
 
-def save_load(project, violations, i, probes):
-    """-> (loaded project or None, snapshot before, snapshot after or None)"""
+def save_load(project, violations, i, probes, scribble=None):
+    """-> (loaded project or None, snapshot before, snapshot after or None)
+
+    scribble: the saved bytes are first loaded by somebody else, who writes all over that copy in
+    place and drops it; the load that is judged is the second one of the same bytes."""
     builder.normalise_metamodules(project)
     before = snapshot.snapshot(project)
     try:
@@ -89,6 +92,18 @@ def save_load(project, violations, i, probes):
     except BaseException as e:
         violations.append({"property": PROPERTY, "oracle": "save_raises", "exc": type(e).__name__, "detail": {"op": i, "msg": str(e)[:200]}})
         return None, before, None
+    if scribble is not None:
+        ctx0 = Ctx(())
+        try:
+            with active(ctx0):
+                other = read_sunvox_file(ctx0.new_stream(data, "arg"))
+            probes["scribbled_first_copy_leaves"] = probes.get("scribbled_first_copy_leaves", 0) + trash.scribble(other, scribble)
+            del other
+        except (KeyboardInterrupt, HarnessTimeout):
+            raise
+        except BaseException:
+            pass  # judged below, on the load that counts
+        env.LOG.take()
     ctx = Ctx(())
     with active(ctx):
         try:
@@ -135,7 +150,7 @@ def execute(case):
     nontrivial = False
     for i, op in enumerate(case["ops"]):
         if op["k"] == "save_load":
-            loaded, before, after = save_load(s.project, violations, i, probes)
+            loaded, before, after = save_load(s.project, violations, i, probes, scribble=op.get("scribble"))
             restarts += 1
             states.append(seeds.h64(sorted(before.items(), key=lambda kv: repr(kv[0]))))
             if before.get(("nmodules",), 0) >= 2:
@@ -188,7 +203,7 @@ def generate(seed, i, tier="quick"):
             ops += [builder.gen_op(r, w) for _ in range(n)]
         if r.random() < 0.35:
             ops.insert(len(ops) - r.randint(0, min(n, 6)), {"k": "save"})
-        ops.append({"k": "save_load"})
+        ops.append({"k": "save_load", "scribble": r.randrange(1000)} if r.random() < 0.3 else {"k": "save_load"})
     # swarm: half of the runs concentrate their slot edits on one module (position 1-3), so that
     # joint states of one module's type-specific payload are reached, not only single edits
     if r.random() < 0.5:
